@@ -294,6 +294,11 @@ impl<const IV: u64> Sys<IV> {
                 let r = self.stores[inst(i)].save_snapshot(&handle(h));
                 format!("ret={} {}", fmt_reg(r), view_agg(&self.kv, h))
             }
+            ["list", i] => {
+                let mut l: Vec<String> = self.stores[inst(i)].list().map(|v| v.iter().map(|h| h.to_string()).collect()).unwrap_or_else(|_| vec!["err".into()]);
+                l.sort();
+                format!("ret={}", if l.is_empty() { "-".to_string() } else { l.join(",") })
+            }
             ["has", i, h] => {
                 let r = self.stores[inst(i)].has(&handle(h)).map(|b| b.to_string()).unwrap_or("err".into());
                 format!("ret={r}")
@@ -581,7 +586,8 @@ fn gen_op(rng: &mut Rng, m: &Mirror, _disk: bool, fault: bool, step: usize) -> S
             format!("hist {} {} {} {} {}", inst(rng), h, off, rows, after)
         }
         69..=70 => format!("drop {} {}", inst(rng), h),
-        71..=72 => format!("has {} {}", inst(rng), h),
+        71 => format!("has {} {}", inst(rng), h),
+        72 => format!("list {}", inst(rng)),
         73..=78 => format!("check {h}"),
         79..=81 => {
             if !fault { "fault on".into() } else { format!("get {} {}", inst(rng), h) }
